@@ -394,6 +394,9 @@ func (g *qgen) vec(d int) string {
 	case k < 17:
 		return g.binary(d)
 	case k == 17:
+		if g.r.Intn(4) == 0 {
+			return fmt.Sprintf("histogram_quantile(%s, %s)", g.qparam(d-1), g.vec(d-1))
+		}
 		return "-" + g.paren(g.vec(d-1))
 	case k == 18:
 		return "(" + g.vec(d-1) + ")"
@@ -553,6 +556,8 @@ func (g *qgen) funcOf(d int) string {
 		return fmt.Sprintf("scalar(%s)", g.vec(d-1))
 	case 7:
 		return fmt.Sprintf("%s %s %s", g.scalAtom(d), pick(g.r, []string{"+", "-", "*", "/", "%", "^", "== bool", "> bool"}), g.scalAtom(d))
+	case 8:
+		return fmt.Sprintf("histogram_quantile(%s, %s)", g.qparam(d-1), g.vec(d-1))
 	}
 	return fmt.Sprintf("%s(%s)", pick(g.r, simpleFuncs), g.vec(d-1))
 }
